@@ -347,7 +347,7 @@ static void build_ops(void) {
     for (int k = 0; k < U; k++) OPS[NOPS++] = (op_t){OP_REMOVE, k, 0, 0, 0, is_strcfg() ? "qtreetbl_remove" : "qtreetbl_removeobj"};
     if (!MODE_WALK) { OPS[NOPS++] = (op_t){OP_CLEAR, 0, 0, 0, 0, "qtreetbl_clear"}; if (NV > 1) for (int k = 0; k < U; k++) OPS[NOPS++] = (op_t){OP_PUTALIAS, k, 0, 0, 0, is_strcfg() ? "qtreetbl_put" : "qtreetbl_putobj"};
         for (int k = 0; k < U; k++) OPS[NOPS++] = (op_t){OP_PUTHUGE, k, 0, 0, 0, is_strcfg() ? "qtreetbl_put" : "qtreetbl_putobj"};
-        for (int k = 0; k < U; k++) OPS[NOPS++] = (op_t){OP_GET, k, 0, 0, 0, is_strcfg() ? "qtreetbl_get" : "qtreetbl_getobj"};
+        if (HIST_MODE) for (int k = 0; k < U; k++) OPS[NOPS++] = (op_t){OP_GET, k, 0, 0, 0, is_strcfg() ? "qtreetbl_get" : "qtreetbl_getobj"};   /* in the closure a read is a self-loop that the observation already covers */
         return; }
     OPS[NOPS++] = (op_t){OP_CLEAR, 0, 0, 0, 0, "qtreetbl_clear"};     /* clear() keeps the traversal epoch machinery consistent as well */
     OPS[NOPS++] = (op_t){OP_WALK, 0, 0, 0, 0, "qtreetbl_getnext"};
